@@ -985,10 +985,12 @@ impl Session {
             return Ok(());
         }
 
-        // Increment packet counter
+        // Increment packet counter. The authentication preamble is packet 0, so the
+        // first session write is packet 1 (fetch_add returns the previous value).
         let pkt = self
             .pkt_counter
-            .fetch_add(1, std::sync::atomic::Ordering::SeqCst);
+            .fetch_add(1, std::sync::atomic::Ordering::SeqCst)
+            + 1;
         let padding_factory = {
             let padding_guard = self.padding.read().await;
             padding_guard.clone()
